@@ -11,7 +11,7 @@ ID = "C12"
 LEVEL = "exploration"
 SHARDS = {"quick": 16, "thorough": 16}
 RULE = (
-    "(A) strings: cluster over letters, digits and . _ - + = : # @ without '::' (or no cluster), module = dotted identifiers, function = identifier or dotted qualname, "
+    "(A) strings (each also as an external FunctionReference, which must report exactly the name, cluster, module, function and version it was built from): cluster over letters, digits and . _ - + = : # @ without '::' (or no cluster), module = dotted identifiers, function = identifier or dotted qualname, "
     "version over the same alphabet incl. '::' (or none): parse_qualified_name(build(parts)) == parts. (B) store: the same cluster/version strings realised on a memento function in a fresh forked process, "
     "called twice (second call must be a hit), queried with memento() and listed with list_mementos() / list_memoized_functions() on filesystem and memory backends. "
     "(C) evolutions: a caller with a pinned explicit version calls an automatically-versioned callee; after the caller is memoized the callee is edited, re-versioned explicitly, renamed, removed, moved to another cluster, stripped of its decorator (name now bound to a plain function) or replaced by a non-callable object under the same name, "
@@ -61,6 +61,26 @@ def exec_a(case):
     if got is not None and dict(got) != parts:
         out.violation("parse_qualified_name(%r) = %r, built from %r" % (name, dict(got), parts), symptom="parse-mismatch",
                       version_has_colon=":" in (parts["version"] or ""), cluster_has_sep=any(c in (parts["cluster"] or "") for c in ":#"))
+    if not out.violations:
+        # the same name as a reference to a function that does not exist in this process (an external reference, which is
+        # also what a stored reference to a vanished version becomes): it must still carry exactly this name
+        try:
+            ref = FunctionReference.from_qualified_name(name, external=True, parameter_names=[])
+            view = {"qualified_name": ref.qualified_name, "cluster": ref.cluster_name, "module": ref.module, "function": ref.function_name,
+                    "without_version": ref.qualified_name_without_version, "without_cluster": ref.qualified_name_without_cluster}
+        except Exception as e:
+            sig = lib_exception_signature(e)
+            if sig is None:
+                raise
+            out.violation("from_qualified_name(%r, external=True) raised %r" % (name, e), symptom="external-reference-raised", **sig)
+            return out
+        want = {"qualified_name": name, "cluster": parts["cluster"], "module": parts["module"], "function": parts["function"],
+                "without_version": build_name(parts["cluster"], parts["module"], parts["function"], None),
+                "without_cluster": build_name(None, parts["module"], parts["function"], parts["version"])}
+        diff = sorted(k for k in want if view[k] != want[k])
+        if diff:
+            out.violation("external reference built from %r reports %s = %r, expected %r" % (name, diff[0], view[diff[0]], want[diff[0]]),
+                          symptom="external-reference-name-differs", field=diff[0], version_has_double_colon="::" in (parts["version"] or ""))
     return out
 
 
@@ -120,9 +140,11 @@ def _common_probes(out, res, want_qn, label, expect_run_first):
     elif res["memento"]["ok"]["qn"] != want_qn:
         out.violation("%s: memento() names %r, stored under %r" % (label, res["memento"]["ok"]["qn"], want_qn), symptom="memento-name-differs")
     if res["list_mementos"]["ok"] != [want_qn]:
-        out.violation("%s: list_mementos() = %r, expected [%r]" % (label, res["list_mementos"]["ok"], want_qn), symptom="listing-differs")
+        out.violation("%s: list_mementos() = %r, expected [%r]" % (label, res["list_mementos"]["ok"], want_qn), symptom="listing-differs",
+                      literal_pct3a="%3A" in want_qn)
     if want_qn not in res["list_functions"]["ok"]:
-        out.violation("%s: list_memoized_functions() = %r lacks %r" % (label, res["list_functions"]["ok"], want_qn), symptom="listing-differs")
+        out.violation("%s: list_memoized_functions() = %r lacks %r" % (label, res["list_functions"]["ok"], want_qn), symptom="listing-differs",
+                      literal_pct3a="%3A" in want_qn)
 
 
 def _prog_c(case, evolved):
@@ -245,7 +267,7 @@ def strategies():
     raw = st.text(alphabet=ALPHA, min_size=1, max_size=10)
     cluster = st.one_of(st.none(), raw.filter(lambda s: "::" not in s and not AMBIG.match(s)),
                         st.sampled_from(["c", "com.example.x", "a:b", "x#y", "c1@prod", "a:"]))
-    version = st.one_of(st.none(), raw, st.sampled_from(["1", "a:b", "a::b", "1::2:3", "v#2", "2020-01-01T10:00:00", "#", ":"]))
+    version = st.one_of(st.none(), raw, st.sampled_from(["1", "a:b", "a::b", "1::2:3", "v#2", "2020-01-01T10:00:00", "#", ":", "v1.link", ".link", "r2.link.tmp", ".versions", "a%2Fb"]))
     a = st.builds(lambda c, m_, f, v: {"part": "A", "cluster": c, "module": m_, "function": f, "version": v}, cluster, dotted, dotted, version)
     b = st.builds(lambda c, v, be: {"part": "B", "cluster": c, "version": v, "backend": be}, cluster, version, st.sampled_from(["fs", "fs", "mem"]))
     c = st.builds(lambda cl, ev, dl: {"part": "C", "cluster": cl, "evolution": ev, "delivery": dl},
